@@ -49,8 +49,9 @@ type c12Slot struct {
 }
 
 type c12Class struct {
-	supers []int
-	slots  []c12Slot
+	supers   []int
+	slots    []c12Slot
+	defaults [][2]int // (:default-initargs k v …), at most on classes nothing inherits from
 }
 
 func c12Ints(xs []int, sep string) string {
@@ -80,6 +81,13 @@ func (cl c12Class) token(c int) string {
 	st := "-"
 	if len(slots) > 0 {
 		st = strings.Join(slots, ";")
+	}
+	if len(cl.defaults) > 0 {
+		var ds []string
+		for _, d := range cl.defaults {
+			ds = append(ds, fmt.Sprintf("%d=%d", d[0], d[1]))
+		}
+		return fmt.Sprintf("D:%d:%s:%s:%s", c, c12Ints(cl.supers, ","), st, strings.Join(ds, ","))
 	}
 	return fmt.Sprintf("D:%d:%s:%s", c, c12Ints(cl.supers, ","), st)
 }
@@ -285,7 +293,92 @@ func c12GenConfig(r *lib.Rng, n int, o c12GenOpts) *c12Config {
 		}
 		cf.redef = &nd
 	}
+	c12GenDefaults(r, cf)
 	return cf
+}
+
+// c12GenDefaults gives default initargs to one class nothing inherits from (in either version of
+// the definitions: slip offers a class's own default initargs only, Common Lisp inherits them; with
+// nothing below the class the two readings coincide). Two default keys are used only when no slot
+// anywhere declares both (slip walks a Go map of them).
+func c12GenDefaults(r *lib.Rng, cf *c12Config) {
+	if !r.Chance(45) {
+		return
+	}
+	isSuper := map[int]bool{}
+	both := map[[2]int]bool{}
+	scan := func(cl c12Class) {
+		for _, s := range cl.supers {
+			isSuper[s] = true
+		}
+		for _, sl := range cl.slots {
+			for _, a := range sl.initargs {
+				for _, b := range sl.initargs {
+					both[[2]int{a, b}] = true
+				}
+			}
+		}
+	}
+	for _, d := range cf.defs {
+		scan(d)
+	}
+	if cf.redef != nil {
+		scan(*cf.redef)
+	}
+	// a slot name reached through different classes of one hierarchy: be conservative, per slot name
+	byName := map[int][]int{}
+	all := append([]c12Class{}, cf.defs...)
+	if cf.redef != nil {
+		all = append(all, *cf.redef)
+	}
+	for _, d := range all {
+		for _, sl := range d.slots {
+			byName[sl.name] = append(byName[sl.name], sl.initargs...)
+		}
+	}
+	for _, ks := range byName {
+		for _, a := range ks {
+			for _, b := range ks {
+				both[[2]int{a, b}] = true
+			}
+		}
+	}
+	var leaves []int
+	for c := 0; c < cf.n; c++ {
+		if !isSuper[c] {
+			leaves = append(leaves, c)
+		}
+	}
+	if len(leaves) == 0 {
+		return
+	}
+	c := leaves[r.Intn(len(leaves))]
+	gen := func(version int) [][2]int {
+		k1 := r.Intn(3)
+		v1 := 700 + 100*version + 10*c + k1
+		if r.Chance(8) {
+			v1 = -1
+		}
+		out := [][2]int{{k1, v1}}
+		if r.Chance(50) {
+			k2 := r.Intn(4) // 3: an initarg no slot declares (ignored)
+			if k2 != k1 && !both[[2]int{k1, k2}] {
+				out = append(out, [2]int{k2, 700 + 100*version + 10*c + k2})
+			}
+		}
+		return out
+	}
+	cf.defs[c].defaults = gen(0)
+	if cf.redef != nil && cf.rcls == c {
+		switch r.Intn(3) {
+		case 0:
+			cf.redef.defaults = nil
+		case 1:
+			cf.redef.defaults = cf.defs[c].defaults
+		default:
+			cf.redef.defaults = gen(1)
+		}
+	}
 }
 
 // ---------------------------------------------------------------------------------------------
@@ -686,6 +779,8 @@ var c12Cells = []c12Cell{
 		"D:0:-:0/0/1/- D:1:0:- D:2:0:0/1/-/- D:3:1,2:- P:3 M:3:- M:3:0=1000 M:3:1=1010 M:1:1=1010"},
 	{"super-order/ancestor-first", 1,
 		"D:0:-:0/-/1/- D:1:0:0/-/11/- D:2:0,1:- P:2 M:2:- A:2:0,1 D:3:1,0:- P:3 M:3:- A:3:0,1"},
+	{"super-order/duplicate-direct", 1,
+		"D:0:-:0/-/1/- D:1:0,0:1/-/12/- P:1 M:1:- D:2:1,0,1:- P:2 M:2:- T:2:0 A:2:0,1,2"},
 	{"shadow/initform-levels", 1,
 		"D:0:-:0/0/1/- D:1:0:0/-/11/- D:2:1:0/1/-/- D:3:2:- P:3 M:0:- M:1:- M:2:- M:3:- M:2:0=1000 M:2:1=1010 M:3:0=1000 M:3:1=1010"},
 	{"shadow/no-initform-below-unbound-above", 1,
@@ -698,6 +793,14 @@ var c12Cells = []c12Cell{
 		"D:0:-:0/0/1/- D:1:0:0/1/-/- M:1:0=1000 M:1:1=1010 M:1:- M:1:0=1000,1=1011"},
 	{"initform/nil", 1,
 		"D:0:-:0/0/-1/-;1/-/2/- M:0:- M:0:0=1000 T:0:0"},
+	{"default-initargs/basic", 1,
+		"D:0:-:0/0/1/-;1/1/2/-;2/2/-/-;3/-/4/-:1=77,2=88 P:0 M:0:- M:0:1=1010 M:0:0=1000,2=1020 M:0:0=1000,1=1011,2=1022"},
+	{"default-initargs/shared-key-and-second-name", 1,
+		"D:0:-:0/0,1/1/-;1/1/2/-;2/2/3/-:1=77 M:0:- M:0:0=1000 M:0:1=1010 M:0:2=1020"},
+	{"default-initargs/inherited-slots-own-defaults", 1,
+		"D:0:-:0/0/1/-;1/1/-/- D:1:0:2/2/23/-:0=710,1=-1,3=713 P:1 M:1:- M:1:0=1000 M:1:1=1010,2=1020 M:0:-"},
+	{"default-initargs/forward-and-redefined", 6,
+		"D:1:0:2/2/23/-:0=710 M:1:- D:0:-:0/0/1/- M:1:- M:1:0=1000 D:1:0:2/2/123/-:0=810,2=812 M:1:- D:1:0:2/2/223/- M:1:- M:1:2=1020"},
 	{"accessor/frame", 1,
 		"D:0:-:0/0/1/rwa;1/1/2/rwa;2/-/-/rwa M:0:- R:0:r:0 R:1:a:0 R:2:r:0 W:0:5000:w:0 W:1:5001:a:0 W:2:5002:s:0 R:0:a:0 R:1:r:0 R:2:a:0 U:1 R:1:r:0 W:1:5003:w:0"},
 	{"accessor/inherited-and-inapplicable", 1,
@@ -754,9 +857,9 @@ func c12SweepPrograms() []*c12Prog {
 	for a, s1 := range sup1 {
 		for b, s2 := range sup2 {
 			cf := &c12Config{n: 3, defs: []c12Class{
-				{nil, []c12Slot{{name: 0, initargs: []int{0}, hasForm: true, form: 1, flags: "r"}, {name: 3, initargs: []int{2}, hasForm: true, form: 4}}},
-				{s1, []c12Slot{{name: 1, initargs: []int{1}, hasForm: true, form: 12, flags: "a"}, {name: 3, hasForm: true, form: 14}}},
-				{s2, []c12Slot{{name: 2, hasForm: true, form: 23, flags: "w"}, {name: 3}}},
+				{supers: nil, slots: []c12Slot{{name: 0, initargs: []int{0}, hasForm: true, form: 1, flags: "r"}, {name: 3, initargs: []int{2}, hasForm: true, form: 4}}},
+				{supers: s1, slots: []c12Slot{{name: 1, initargs: []int{1}, hasForm: true, form: 12, flags: "a"}, {name: 3, hasForm: true, form: 14}}},
+				{supers: s2, slots: []c12Slot{{name: 2, hasForm: true, form: 23, flags: "w"}, {name: 3}}},
 			}}
 			final := c12FinalBlock(fr, cf)
 			for pi, order := range c12Perms(3) {
@@ -995,7 +1098,7 @@ func (e *c12Exec) step(tok string) string {
 	}
 	switch f[0] {
 	case "D":
-		if len(f) != 4 {
+		if len(f) != 4 && len(f) != 5 {
 			return "!token"
 		}
 		c := num(1)
@@ -1037,7 +1140,17 @@ func (e *c12Exec) step(tok string) string {
 			}
 			b.WriteByte(')')
 		}
-		b.WriteString("))")
+		b.WriteString(")")
+		if len(f) == 5 {
+			b.WriteString(" (:default-initargs")
+			for _, kv := range list(f[4], ",") {
+				k, v, _ := strings.Cut(kv, "=")
+				n, _ := strconv.Atoi(v)
+				fmt.Fprintf(&b, " :k%s %s", k, c12FormText(n))
+			}
+			b.WriteString(")")
+		}
+		b.WriteString(")")
 		if o := e.eval(b.String()); !o.Ok {
 			return "!error:" + o.Class
 		}
@@ -1481,6 +1594,10 @@ func c12Agree(tok, model, impl string) bool {
 		if model == "!notready" || model == "!badarg" {
 			return impl == "!error"
 		}
+		if strings.HasPrefix(model, "~") {
+			// a class above has default initargs (inherited in Common Lisp, not in slip): not constrained
+			return true
+		}
 		if strings.HasPrefix(model, "?") {
 			// two supplied initargs name one slot: an error or the leftmost value are both accepted
 			return impl == "!error" || impl == model[1:]
@@ -1778,7 +1895,7 @@ func runC12(c *lib.Ctx) {
 
 	// perm families
 	type fam struct{ n, count int }
-	fams := []fam{{1, c.Scale(4, 12)}, {2, c.Scale(10, 40)}, {3, c.Scale(30, 150)}, {4, c.Scale(30, 120)}, {5, c.Scale(6, 36)}}
+	fams := []fam{{1, c.Scale(4, 12)}, {2, c.Scale(10, 40)}, {3, c.Scale(30, 150)}, {4, c.Scale(24, 120)}, {5, c.Scale(5, 36)}}
 	fi := 0
 	for _, fm := range fams {
 		for k := 0; k < fm.count; k++ {
@@ -1797,7 +1914,7 @@ func runC12(c *lib.Ctx) {
 		}
 	}
 	// single random programs, five classes
-	nsingle := c.Scale(400, 3000)
+	nsingle := c.Scale(350, 3000)
 	for k := 0; k < nsingle; k++ {
 		o := opts
 		o.redef = !avoidRedef && c.Rng.Chance(60)
@@ -1873,6 +1990,12 @@ func runC12(c *lib.Ctx) {
 			}
 			if t[0] == 'M' && strings.HasPrefix(model[j], "?") {
 				c.Ev.Count("ambiguous_initargs", 1)
+			}
+			if t[0] == 'M' && strings.HasPrefix(model[j], "~") {
+				c.Ev.Count("unconstrained_inherited_default_initargs", 1)
+			}
+			if t[0] == 'D' && strings.Count(t, ":") == 4 {
+				c.Ev.Count("defclass_forms_with_default_initargs", 1)
 			}
 		}
 		if i%(len(progs)/10+1) == 0 {
